@@ -126,6 +126,7 @@ impl <N: Floating> ArrayFloating<N> for Array<N> {
     fn frexp(&self) -> Result<(Self, Array<i32>), ArrayError> {
 
         fn _frexp(x: f64) -> (f64, i32) {
+            if !x.is_finite() { return (x, 0); }
             let sign = x.signum();
             let mut x = x.abs();
             let mut sig: f64 = 0.0;
